@@ -5,12 +5,15 @@
    text node the position points into.  The theorems say, for every schema, document and position:
    resolve succeeds exactly on 0..size; the path it returns is a chain of parent/child nodes; and the
    tokens on its left / right are exactly the first pos / the remaining tokens of the document — i.e. the
-   position IS the token index, one per UTF-16 unit.  The individual accessors (start/end/before/after,
-   node_at, nodes_between, text_between, marks ...) are compared with their token-level specification per
-   case by Corr.C09 (Spec/TokenPos.v). *)
+   position IS the token index, one per UTF-16 unit.  Node.nodes_between reports exactly the nodes of the document
+   that overlap the range, each with its parent, index and absolute position (sound and complete), hence
+   Node.range_has_mark; Node.node_at returns the node whose tokens sit at / around the position.  The remaining
+   accessors (text_between, marks, marks_across, block_range, child_after/before ...) are compared with their
+   token-level specification per case by Corr.C09 (Spec/TokenPos.v). *)
 From Coq Require Import List Arith Lia.
 From PM Require Import Model.Data Model.Mark Model.Tree Spec.Tokens
-  Proofs.ReplaceValid Proofs.SliceSides Proofs.TokenBasics Proofs.PathTokens Proofs.ReplaceTokens Proofs.Accessors.
+  Proofs.ReplaceValid Proofs.SliceSides Proofs.TokenBasics Proofs.PathTokens Proofs.ReplaceTokens Proofs.Accessors
+  Model.Resolve Proofs.StepSafe Proofs.Traversal.
 Import ListNotations.
 
 Theorem C09_every_position_resolves : forall s doc pos,
@@ -73,3 +76,77 @@ Theorem C09_ancestor_accessors : forall s doc pos r d nd,
     length X + 1 <= pos /\ pos <= length X + 1 + frag_size s (node_content nd).
 Proof. exact ancestor_span. Qed.
 Print Assumptions C09_ancestor_accessors.
+
+(* ------------------------------------------------------------------ walking the nodes between two positions
+   [Sub s doc p i c q]: c is child number i of p, p is the document or one of its descendants, and q is the
+   absolute position of c (the position of the parent's content start plus the sizes of the children before c).
+   [At s T q c]: the tokens of c sit at index q of the token sequence T.
+   [leaves_empty]: leaf-typed nodes have no children (what every constructor, parser and Node.check-ed document has). *)
+Theorem C09_descendant_position_is_token_index : forall s doc p i c q,
+  leaves_empty s doc -> Sub s doc p i c q -> At s (ftoks s (node_content doc)) q c.
+Proof. exact Sub_At. Qed.
+Print Assumptions C09_descendant_position_is_token_index.
+
+(* sound: whatever the callback's answers ([descend]), every reported (node, pos, parent, index) is a descendant of the
+   document with that parent, index and absolute position, its tokens sit at token index pos, and it overlaps the
+   range: pos < to and from < pos + size *)
+Theorem C09_nodes_between_sound : forall s descend doc from to vs,
+  leaves_empty s doc ->
+  nodes_between_node s descend doc from to 0 = Ok vs ->
+  Forall (fun v =>
+    (exists p, v_parent v = Some p /\ Sub s doc p (v_index v) (v_node v) (v_pos v)) /\
+    At s (ftoks s (node_content doc)) (v_pos v) (v_node v) /\
+    v_pos v < to /\ from < v_pos v + node_size s (v_node v)) vs.
+Proof.
+  intros s descend doc from to vs Hle H.
+  pose proof (nodes_between_sound s descend doc from to vs Hle H) as H1.
+  pose proof (nodes_between_sub s descend doc from to vs H) as H2.
+  rewrite Forall_forall in *. intros v Hv. destruct (H1 v Hv) as (Ha & Hb & Hc & _). split; [exact (H2 v Hv)|]. auto.
+Qed.
+Print Assumptions C09_nodes_between_sound.
+
+(* the walk returns (no exception) for every range that ends inside the document, whatever the callback answers *)
+Theorem C09_nodes_between_total : forall s descend doc from to,
+  to <= frag_size s (node_content doc) -> exists vs, nodes_between_node s descend doc from to 0 = Ok vs.
+Proof. intros s descend doc from to H. exact (nb_total s descend doc from to 0 H). Qed.
+Print Assumptions C09_nodes_between_total.
+
+(* complete: with a callback that never prunes, every descendant of the document that overlaps the range (and is not
+   an empty text node) is reported, with its parent, index and position *)
+Theorem C09_nodes_between_complete : forall s doc from to vs,
+  leaves_empty s doc -> to <= frag_size s (node_content doc) ->
+  nodes_between_node s (fun _ => true) doc from to 0 = Ok vs ->
+  forall p i c q, Sub s doc p i c q -> q < to -> from < q + node_size s c -> 0 < node_size s c ->
+    In {| v_node := c; v_pos := q; v_parent := Some p; v_index := i |} vs.
+Proof. exact nodes_between_complete. Qed.
+Print Assumptions C09_nodes_between_complete.
+
+(* Node.range_has_mark(from, to, mark or type), for a non-empty range (for from >= to the answer is False): True exactly
+   when some node of the document overlapping the range carries such a mark ([test] = Mark.is_in_set /
+   MarkType.is_in_set on the node's marks) *)
+Theorem C09_range_has_mark_iff : forall s doc from to test b,
+  leaves_empty s doc -> from < to -> to <= frag_size s (node_content doc) ->
+  (forall p i c q, Sub s doc p i c q -> 0 < node_size s c) ->        (* no empty text nodes *)
+  range_has_mark s doc from to test = Ok b ->
+  (b = true <-> exists p i c q, Sub s doc p i c q /\ q < to /\ from < q + node_size s c /\ test (node_marks c) = true).
+Proof.
+  intros s doc from to test b Hle Hft Hto Hpos H. unfold range_has_mark in H.
+  apply Nat.ltb_lt in Hft. rewrite Hft in H.
+  destruct (nodes_between_node s (fun _ => true) doc from to 0) as [vs|] eqn:Ev; [|discriminate]. cbn in H. inversion H; subst b. clear H.
+  rewrite existsb_exists. split.
+  - intros (v & Hv & Ht). pose proof (C09_nodes_between_sound s _ doc from to vs Hle Ev) as Hs. rewrite Forall_forall in Hs.
+    destruct (Hs v Hv) as ((p & _ & HS) & _ & H1 & H2). exists p, (v_index v), (v_node v), (v_pos v). auto.
+  - intros (p & i & c & q & HS & H1 & H2 & Ht).
+    exists {| v_node := c; v_pos := q; v_parent := Some p; v_index := i |}. split; [|exact Ht].
+    exact (nodes_between_complete s doc from to vs Hle Hto Ev p i c q HS H1 H2 (Hpos p i c q HS)).
+Qed.
+Print Assumptions C09_range_has_mark_iff.
+
+(* Node.node_at(pos): the node returned sits at a token index p <= pos: an element exactly at pos (pos is the index of
+   its open / leaf token), a text node at or around pos *)
+Theorem C09_node_at_located : forall s fuel n pos c,
+  node_at s fuel n pos = Ok (Some c) ->
+  exists p, At s (ftoks s (node_content n)) p c /\ p <= pos /\
+            (node_is_text c = false -> p = pos) /\ (node_is_text c = true -> pos = p \/ pos < p + node_size s c).
+Proof. exact node_at_located. Qed.
+Print Assumptions C09_node_at_located.
